@@ -46,6 +46,10 @@ class Fn(object):
         self._preds = None
         self._rpo = None
         self.prog = prog
+        if d.get("cfg"):
+            for b in d["cfg"]["blocks"]:
+                if b.get("noreturn") and b["succ"]:
+                    b["succ"] = []
 
     # ---- naming -------------------------------------------------------
     @property
@@ -232,6 +236,11 @@ class Fn(object):
 
     def blocks(self):
         if self._blocks is None:
+            for b in self.cfg["blocks"]:
+                # a block ending in a noreturn call (assertion failure, abort)
+                # does not continue to the exit: no path rule may count it
+                if b.get("noreturn") and b["succ"]:
+                    b["succ"] = []
             self._blocks = {b["id"]: b for b in self.cfg["blocks"]}
         return self._blocks
 
